@@ -273,6 +273,16 @@ func verifC16RunStream(rec *kit.Rec, cs verifC16StreamCase, pauses []time.Durati
 					time.Sleep(50 * time.Millisecond)
 					still = missingForGood() && progress.Load() == p0 && !readerDone.Load()
 				}
+				if still && hbs != nil {
+					// the reader itself must be parked in hbConn.Read (not merely slow between two reads)
+					parked := false
+					for _, g := range kit.InFunc(kit.Stacks(), "pkg/dtls.(*hbConn).Read") {
+						if g.Blocked() {
+							parked = true
+						}
+					}
+					still = parked && missingForGood() && progress.Load() == p0
+				}
 				if still {
 					stuck.Store(true)
 					conn.Close()
